@@ -116,7 +116,9 @@ pub open spec fn whole_lines(s: Seq<u8>, t: u8, lo: int, hi: int) -> bool {
     0 <= lo <= hi <= s.len() && is_line_start(s, t, lo) && line_bound(s, t, hi)
 }
 
-/// [lo, hi) is exactly one line of s (terminator included if present)
+/// [lo, hi) is exactly one line of s (terminator included if present).  Opaque: callers get
+/// it from LineStep::next_match / locate and use it as an atom; the lemmas below reveal it.
+#[verifier::opaque]
 pub open spec fn one_line(s: Seq<u8>, t: u8, lo: int, hi: int) -> bool {
     0 <= lo < hi <= s.len() && is_line_start(s, t, lo) && no_term(s, t, lo, hi - 1)
         && (s[hi - 1] == t || hi == s.len())
@@ -160,6 +162,7 @@ pub proof fn lemma_one_line_shift(b: Seq<u8>, t: u8, pos: int, s: int, e: int)
         one_line(b.subrange(pos, b.len() as int), t, s, e) == one_line(b, t, pos + s, pos + e),
         b.subrange(pos, b.len() as int).subrange(s, e) =~= b.subrange(pos + s, pos + e),
 {
+    reveal(one_line);
     let sub = b.subrange(pos, b.len() as int);
     assert forall|i: int| 0 <= i < sub.len() implies sub[i] == b[pos + i] by {}
     if s < e {
@@ -237,6 +240,7 @@ pub proof fn lemma_lines_disjoint(b: Seq<u8>, t: u8, a1: int, b1: int, a2: int, 
     requires one_line(b, t, a1, b1), one_line(b, t, a2, b2), a1 < b2, a2 < b1,
     ensures a1 == a2 && b1 == b2,
 {
+    reveal(one_line);
     if a1 < a2 {
         assert(b[a2 - 1] == t);
         assert(a1 <= a2 - 1 < b1 - 1);
@@ -250,5 +254,34 @@ pub proof fn lemma_lines_disjoint(b: Seq<u8>, t: u8, a1: int, b1: int, a2: int, 
     }
     if b2 < b1 {
         assert(b[b2 - 1] == t);
+    }
+}
+
+pub proof fn lemma_one_line_intro(b: Seq<u8>, t: u8, s: int, e: int)
+    requires 0 <= s < e <= b.len(), is_line_start(b, t, s), no_term(b, t, s, e - 1), b[e - 1] == t || e == b.len(),
+    ensures one_line(b, t, s, e),
+{ reveal(one_line); }
+
+pub proof fn lemma_one_line_props(b: Seq<u8>, t: u8, s: int, e: int)
+    requires one_line(b, t, s, e),
+    ensures 0 <= s < e <= b.len(), whole_lines(b, t, s, e), is_line_start(b, t, s), line_bound(b, t, e),
+        line_end_from(b, t, s) == e,
+{
+    reveal(one_line);
+    if b[e - 1] == t { lemma_line_end_from(b, t, s, e - 1); } else { lemma_line_end_from(b, t, s, e); }
+}
+
+/// the line found by locate around a position is a line
+pub proof fn lemma_one_line_around(b: Seq<u8>, t: u8, i: int)
+    requires 0 <= i < b.len() || (0 <= i <= b.len() && line_start_of(b, t, i) < line_end_from(b, t, i)),
+    ensures one_line(b, t, line_start_of(b, t, i), line_end_from(b, t, i)),
+{
+    reveal(one_line);
+    lemma_line_start_of_le(b, t, i);
+    lemma_line_end_from_props(b, t, i);
+    let s = line_start_of(b, t, i);
+    let e = line_end_from(b, t, i);
+    assert forall|j: int| s <= j < e - 1 implies #[trigger] b[j] != t by {
+        if j < i { } else { }
     }
 }
